@@ -24,7 +24,7 @@ def oracle_only_expr(rng, gen):
     k = rng.choice(ORACLE_ONLY)
     if k == "PEuclidean":
         n = rng.randint(1, 8)
-        return E(k, n, rng.randint(0, n), rng.randint(0, 3))
+        return E(k, rng.randint(0, n), n, rng.randint(0, n - 1))        # PEuclidean(onsets <= steps, steps, phase < steps)
     if k == "PArpeggiator":
         return E(k, [rng.randint(0, 12) for _ in range(rng.randint(1, 5))], rng.randint(0, 3))
     if k == "PNormalise":
